@@ -350,6 +350,11 @@ func jsonScalar(v any) JSONField {
 		return JSONField{Accept: []string{x}}
 	case json.Number:
 		acc := []string{x.String()}
+		if _, err := strconv.ParseInt(x.String(), 10, 64); err == nil {
+			// an integer that fits 64 bits is exposed digit for digit (a detour through float64 loses the low
+			// digits above 2^53)
+			return JSONField{Accept: acc}
+		}
 		if f, err := x.Float64(); err == nil {
 			acc = append(acc, strconv.FormatFloat(f, 'f', -1, 64), strconv.FormatFloat(f, 'g', -1, 64))
 		}
